@@ -77,7 +77,9 @@ func main() {
 		"updates/deletes between commits, the working trie sometimes replaced by Recreate(last root). After about every third commit and at the end EVERY remembered root " +
 		"is recreated (through the working trie or through a trie with another level) and compared (root hash, all leaves, point reads), then 5 further operations are " +
 		"applied to the recreated trie and compared with the original continued by the same operations (newest root) or with a fresh trie rebuilt from the remembered pairs " +
-		"(older roots), committed and recreated once more. Non-trivial: the remembered map has at least 2 keys and a branch; shape signature = level, number of commits, " +
+		"(older roots), committed and recreated once more. Fork phase at the end of every history: the working trie is committed and forked with Recreate (own just-committed root, through another " +
+		"trie object, older root); up to 4 trie objects stay in use as independent lines, 6-14 steps each mutate (1-4 updates/deletes, no reads in between), commit or fork ONE line; after every step the root of EVERY line " +
+		"(also those not operated on) must equal a fresh trie rebuilt from that line's own pairs, periodically all point reads are compared; finally every line is committed and every line's root is recreated through a new trie object and compared. Non-trivial: the remembered map has at least 2 keys and a branch; shape signature = level, number of commits, " +
 		"canonical node counts at the last commit.")
 	r.Assume("no pruning is wired in this harness, so no committed root may be lost", "memorydb trusted", "blake2b collision resistance")
 	r.MinShapes(50)
@@ -342,6 +344,11 @@ func main() {
 		if !ok {
 			return
 		}
+		// fork phase (fork.go): recreated tries and their originals kept in use side by side
+		hist = append(hist, opRec{Op: "fork-phase"})
+		if !runForkPhase(r, c, env, level, tr, model, roots, pool, fail) {
+			return
+		}
 		last := roots[len(roots)-1]
 		sh := triegen.ShapeOf(func() [][]byte {
 			var ks [][]byte
@@ -365,6 +372,9 @@ func main() {
 			r.Sample(map[string]interface{}{"case": c.Idx, "level": level, "commits": nCommits, "history_len": len(hist), "first_ops": hh, "last_root": vk.Hex(last.root), "last_shape": sh.String()})
 		}
 	})
+	if r.ReplayCase < 0 && r.Violations() == 0 && r.Counter("fork_cases_with_two_or_more_mutated_lines") < int64(nCases/2) {
+		r.Inconclusive(fmt.Sprintf("fork phase: only %d cases had two or more live tries that were both mutated", r.Counter("fork_cases_with_two_or_more_mutated_lines")))
+	}
 	runConcurrentPhase(r)
 	r.Finish()
 }
